@@ -96,6 +96,21 @@ CHECKS = {
             "the SemLock model re-implements _multiprocessing.SemLock (semaphore.c semantics, DESIGN.md App. A); real "
             "sem_timedwait races are modelled as 'timer fired => acquire failed'; open finding F-b (lost notify, CPython's "
             "algorithm) is excluded by construction and replayed", "DESIGN.md §6 C14"),
+    "C11": ("PURE", "Hypothesis-generated request byte streams fed to the real resource_tracker.main() loop in-process, "
+                    "compared with an independent reference model of the refcount law (exact cleanup sequence, end-of-life "
+                    "sweep multiset + folders-last order, error count, leak warnings); Atheris coverage-guided fuzzing of the "
+                    "same target/oracle in the thorough tier; generated sequences against a real tracker process and real "
+                    "files/folders",
+            "Model-based differential over generated request sequences including malformed input; exploration (30k "
+            "streams quick, 400k + 1.2M fuzz executions thorough).",
+            "substituted in the tracker module namespace: signal, sys, open, _CLEANUP_FUNCS; the reference model encodes the "
+            "line protocol named in the property's anchors", "DESIGN.md §6 C11"),
+    "C16": ("PURE", "Hypothesis-generated non-importable functions/closures/classes/instances (exec of generated source), "
+                    "keep_wrapper, 1-3 plain-pickle round trips, wrapper-of-wrapper; oracle = differential with the unwrapped "
+                    "object (callability, calls, attributes, methods, arrival wrapped iff keep_wrapper)",
+            "Behavioural differential on generated objects and arguments. Exploration.",
+            "behaviour sampled on 3 argument tuples per object; objects restricted to what cloudpickle serialises",
+            "DESIGN.md §6 C16"),
 }
 
 NOT_YET = {}
